@@ -49,4 +49,4 @@ CHECK = SimCheck(
            "whether the manager's socket for a connection is closed is read from the simulated kernel"],
     quick=(800, 60), thorough=(20000, 150), nontrivial=nontrivial, min_clients=3,
 )
-run, replay, shard = CHECK.run, CHECK.replay, CHECK.shard
+run, replay_trace, shard = CHECK.run, CHECK.replay_trace, CHECK.shard
